@@ -19,6 +19,12 @@ package staging
 //@   ensures[address] result0 ==> result1 == nil && nhex == old(nhex) + 2 && store.hexof(old(nhex), digest)
 //@   at call (*Store).Contains assert[requested] arg0 == s.store && arg1 == path && arg2 == digest
 
+// Sink: a sink for exactly the wanted path over a freshly allocated storage.
+//@ func (*Stager).Sink
+//@   requires s != nil && s.store != nil && 0 <= s.store.maximumFileSize
+//@   ensures[sink] result1 == nil ==> unboxptr(result0, "Sink") != nil && unboxptr(result0, "Sink").path == path && store.wfstorage(unboxptr(result0, "Sink").storage) && unboxptr(result0, "Sink").storage.currentSize == 0
+//@   ensures[sink] result1 != nil ==> result0 == nil
+
 // (a sink's storage comes from Store.Allocate: well formed)
 //@ func (*Sink).Write
 //@   requires s != nil && store.wfstorage(s.storage)
